@@ -53,7 +53,7 @@ class StarTail:
 class Ctx:
     """One path of one symbolic execution."""
 
-    def __init__(self, trace, timeout_ms=2000):
+    def __init__(self, trace, timeout_ms=int(os.environ.get("VERIF_FEAS_MS", "1000"))):
         self.trace = list(trace)
         self.pos = 0
         self.pc = []
@@ -61,6 +61,7 @@ class Ctx:
         self.fresh_n = 0
         self.solver = z3.Solver()
         self.solver.set('timeout', timeout_ms)
+        self.solver.set('rlimit', int(os.environ.get('VERIF_FEAS_RLIMIT', '150000')))     # deterministic budget; wall-clock is only a safety net
         # feasibility pruning only needs refutations: no model-based quantifier instantiation
         # (an `unknown` answer keeps the path, which is sound)
         self.solver.set('smt.mbqi', False)
@@ -611,8 +612,23 @@ class Interp:
         tail = None
         if args and isinstance(args[-1], StarTail):
             tail = args.pop().seq
-            if a.vararg is None or len(args) < len(params):
-                raise Unsupported('symbolic *args spread over named parameters')
+            need = len(params) - len(args)
+            if need > 0:
+                # named parameters take the first elements of the symbolic tail (their existence is forced or forked)
+                if tail.prefix:
+                    raise Unsupported('symbolic tail with a prefix spread over named parameters')
+                if self.ctx.feasible(tail.n < need) and not self.ctx.choose(_simp(tail.n >= need)):
+                    self.raise_('TypeError', f'{fv.name}() missing required positional arguments')
+                self.ctx.assume(tail.n >= need)
+                for j in range(need):
+                    e = tail.elem(z3.IntVal(j))
+                    args.append(Sym(e) if z3.is_expr(e) else e)
+                tail = tail.shifted(need)
+            if a.vararg is None:
+                if self.ctx.feasible(tail.n > 0) and not self.ctx.choose(_simp(tail.n == 0)):
+                    self.raise_('TypeError', f'{fv.name}() takes {len(params)} positional arguments but more were given')
+                self.ctx.assume(tail.n == 0)
+                tail = None
         if len(args) > len(params) and a.vararg is None:
             self.raise_('TypeError', f'{fv.name}() takes {len(params)} positional arguments but {len(args)} were given')
         for p, v in zip(params, args):
@@ -900,6 +916,10 @@ class Interp:
             special = self._special_listcomp(e, env, module)
             if special is not NOTFOUND:
                 return special
+        if T is ast.GeneratorExp and len(e.generators) == 1 and not e.generators[0].ifs:
+            special = self._special_genexp(e, env, module)
+            if special is not NOTFOUND:
+                return special
         if T in (ast.ListComp, ast.GeneratorExp, ast.SetComp):
             out = []
             self.comprehension(e.generators, 0, env, module, lambda env2: out.append(self.eval(e.elt, env2, module)))
@@ -918,6 +938,23 @@ class Interp:
             env[e.target.id] = v
             return v
         raise Unsupported(f'expression {T.__name__}')
+
+    def _special_genexp(self, e, env, module):
+        """(D[x] for x in SEQ) with SEQ of symbolic length and D an abstract map: a symbolic sequence of lookups"""
+        g = e.generators[0]
+        if not (isinstance(g.target, ast.Name) and isinstance(e.elt, ast.Subscript) and isinstance(e.elt.slice, ast.Name)
+                and e.elt.slice.id == g.target.id and isinstance(e.elt.value, ast.Name)):
+            return NOTFOUND
+        try:
+            d = self.lookup_name(e.elt.value.id, env, module)
+        except Unsupported:
+            return NOTFOUND
+        if not hasattr(d, 'm_map_lookup'):
+            return NOTFOUND
+        src = self.eval(g.iter, env, module)
+        if not (hasattr(src, 'concrete_len') and src.concrete_len(self) is None):
+            return NOTFOUND
+        return d.m_map_lookup(self, src)
 
     def _special_listcomp(self, e, env, module):
         """[x for x in L if x != c] over an abstract label list (filter view)"""
